@@ -3,6 +3,7 @@ import RedactVerif.Proofs.Lab
 import RedactVerif.Props.C02
 import RedactVerif.Props.FactsSkelBuffer
 import RedactVerif.Props.TransBuffer
+import RedactVerif.Props.TransBuilder
 import RedactVerif.Props.FactsSkelWriters
 /-
 C09 — SafeWriter contract: each payload lands once, in order, on its own side.
